@@ -122,40 +122,49 @@ def _pick(*names):
     return tuple(A[n] for n in names)
 
 
-# family -> (atoms, return type)
+# family -> (prefix atoms [not counted in the bound], atoms, return type)
 FAMILIES = {
-    "core": (_pick("q=new", "h(q)", "consume(q)", "r=q", "consume(r)", "return"), "None"),
-    "params": (_pick("h(p)", "consume(p)", "r=p", "consume(r)", "h(o)", "consume(o)", "r=o",
-                     "o=new", "return"), "None"),
-    "tuple": (_pick("t=(new,new)", "t=(q,r)", "q,r=t", "consume(q)", "consume(r)",
+    # everything starts undefined
+    "core": ((), _pick("q=new", "h(q)", "consume(q)", "r=q", "consume(r)", "return"), "None"),
+    # q is live from the start
+    "live": (_pick("q=new"),
+             _pick("q=new", "h(q)", "consume(q)", "r=q", "consume(r)", "return"), "None"),
+    "params": ((), _pick("h(p)", "consume(p)", "r=p", "consume(r)", "h(o)", "consume(o)", "r=o",
+                         "o=new", "return"), "None"),
+    "tuple": (_pick("t=(new,new)"),
+              _pick("t=(new,new)", "t=(q,r)", "q,r=t", "consume(q)", "consume(r)",
                     "consume(t[0])", "h(t[1])", "consume(t[1])", "consume_t(t)", "return"), "None"),
-    "struct": (_pick("s=S(new)", "s=S(q)", "q=s.f", "h(s.f)", "consume(s.f)", "s.f=new",
+    "struct": (_pick("s=S(new)"),
+               _pick("s=S(new)", "s=S(q)", "q=s.f", "h(s.f)", "consume(s.f)", "s.f=new",
                      "consume_s(s)", "consume(q)", "return"), "None"),
-    "retq": (_pick("q=new", "h(q)", "consume(q)", "consume(o)", "return q", "return o",
-                   "return new"), "qubit"),
+    "retq": ((), _pick("q=new", "h(q)", "consume(q)", "consume(o)", "return q", "return o",
+                       "return new"), "qubit"),
     # thorough only
-    "core+": (_pick("q=new", "r=new", "h(q)", "h(r)", "consume(q)", "consume(r)", "r=q", "q=r",
+    "core+": (_pick("q=new"),
+              _pick("q=new", "r=new", "h(q)", "h(r)", "consume(q)", "consume(r)", "r=q", "q=r",
                     "h(p)", "consume(o)", "return"), "None"),
-    "exotic": (_pick("p=new", "h(p)", "consume(p)", "return p", "o=new", "o=q", "q=new",
-                     "consume(o)", "return o", "t=(q,q)", "borrow_s(s)", "s=S(q)",
-                     "return s.f", "return new"), "qubit"),
+    "exotic": ((), _pick("p=new", "h(p)", "consume(p)", "return p", "o=new", "o=q", "q=new",
+                         "consume(o)", "return o", "t=(q,q)", "borrow_s(s)", "s=S(q)",
+                         "return s.f", "return new"), "qubit"),
 }
 
 
 # tier -> list of (family, max_stmts, max_depth)
 def bounds(tier: str):
     if tier == "quick":
-        return [("core", 4, 2), ("params", 3, 2), ("tuple", 3, 2), ("struct", 3, 2),
-                ("retq", 3, 2)]
-    return [("core", 5, 3), ("params", 4, 3), ("tuple", 4, 2), ("struct", 4, 2),
+        return [("core", 4, 2), ("live", 4, 2), ("params", 3, 2), ("tuple", 3, 2),
+                ("struct", 3, 2), ("retq", 3, 2), ("exotic", 2, 1)]
+    return [("core", 5, 3), ("live", 5, 3), ("params", 4, 3), ("tuple", 4, 2), ("struct", 4, 2),
             ("retq", 4, 3), ("core+", 4, 2), ("exotic", 3, 2)]
 
 
 def programs(tier: str):
+    """The complete bounded space: (family, body); body includes the family prefix."""
     for fam, n, d in bounds(tier):
-        atoms, _ = FAMILIES[fam]
+        prefix, atoms, _ = FAMILIES[fam]
+        pre = tuple(("a", a) for a in prefix)
         for body in pg.enumerate_bodies(atoms, n, d, loops=("while",)):
-            yield (fam, body)
+            yield (fam, pre + body)
 
 
 # --------------------------------------------------------------------- reference model
@@ -172,17 +181,7 @@ def _mentions(body, out: set) -> set:
     return out
 
 
-def model(body, ret_ty: str) -> dict:
-    """Explores the product of the ownership automata with the structured control
-    flow.  Returns verdict SAFE / VIOLATION / UNDEF (+ 'exotic' flag) and counts."""
-    used = _mentions(body, set())
-    init = ["U"] * len(PLACES)
-    if "o" in used:
-        init[IDX["o"]] = "O"
-    if "p" in used:
-        init[IDX["p"]] = "L"
-    events: set = set()
-
+def _step_factory(events: set):
     def step(state, atom, point):
         st = list(state)
         for op in atom.meta:
@@ -223,8 +222,33 @@ def model(body, ret_ty: str) -> dict:
                     return ()
                 st[i] = "O"
         return (tuple(st),)
+    return step
 
-    ex = pg.explore_paths(body, tuple(init), step)
+
+CROSSCHECK_MAX_STMTS = 5
+
+
+def model(body, ret_ty: str) -> dict:
+    """Explores the product of the ownership automata with the structured control
+    flow.  Returns verdict SAFE / VIOLATION / UNDEF (+ 'exotic' flag) and counts.
+
+    For small programs the fixpoint exploration is cross-checked against a plain
+    path-by-path enumeration (a disagreement is a harness error, not a finding)."""
+    used = _mentions(body, set())
+    init = ["U"] * len(PLACES)
+    if "o" in used:
+        init[IDX["o"]] = "O"
+    if "p" in used:
+        init[IDX["p"]] = "L"
+    init = tuple(init)
+    events: set = set()
+    ex = pg.explore_paths(body, init, _step_factory(events))
+    if pg.count_stmts(body) <= CROSSCHECK_MAX_STMTS:
+        ev2: set = set()
+        bf, be = pg.brute_force_paths(body, init, _step_factory(ev2), max_iter=4)
+        if be != ex.exits or ev2 != events or any(bf[p] != ex.before[p] for p in bf):
+            raise AssertionError("reference model: fixpoint exploration and path enumeration "
+                                 "disagree on " + pg.show(body))
     for how, st in ex.exits:
         if "O" in st:
             events.add("viol:leak-at-exit")
@@ -301,7 +325,7 @@ def run_guppy(src: str, want_compile: bool):
 
 def check_one(item) -> dict:
     fam, body = item
-    _, ret_ty = FAMILIES[fam]
+    ret_ty = FAMILIES[fam][2]
     m = model(body, ret_ty)
     rec = {"family": fam, "verdict": m["verdict"], "viol": None, "bucket": "",
            "states": m["states"], "transitions": m["transitions"], "replayed": False,
@@ -363,7 +387,7 @@ def _safe_check(item):
 
 def _item_json(item) -> dict:
     fam, body = item
-    _, ret_ty = FAMILIES[fam]
+    ret_ty = FAMILIES[fam][2]
     return {"family": fam, "body": pg.to_json(body),
             "src": source(body, ret_ty, _mentions(body, set()))}
 
@@ -414,7 +438,9 @@ def run(ctx) -> dict:
                 "least one branch or loop",
         "samples": samples,
         "bounds(family,max_stmts,max_depth)": [list(map(str, b)) for b in bounds(ctx.tier)],
-        "atoms_per_family": {f: [a.name for a in FAMILIES[f][0]] for f, _, _ in bounds(ctx.tier)},
+        "atoms_per_family": {f: {"prefix": [a.name for a in FAMILIES[f][0]],
+                                 "atoms": [a.name for a in FAMILIES[f][1]]}
+                             for f, _, _ in bounds(ctx.tier)},
         "programs_per_family": dict(fam),
         "model_verdicts": dict(verdicts),
         "model_violation_kinds": dict(mviol),
@@ -439,4 +465,4 @@ def replay(ctx, item) -> dict:
     body = pg.from_json(item["body"], ALL_ATOMS)
     r = check_one((fam, body))
     return {"violation": bool(r["viol"]), "result": r,
-            "src": source(body, FAMILIES[fam][1], _mentions(body, set()))}
+            "src": source(body, FAMILIES[fam][2], _mentions(body, set()))}
